@@ -54,6 +54,8 @@ UNITS = {
     "c20": {"kind": "exe", "src": ["units/c20_geometry.cpp"]},
     "c15": {"kind": "exe", "src": ["units/c15_cpuid_dispatch.cpp"]},
     "c18": {"kind": "exe", "src": ["units/c18_allocator.cpp"]},
+    "math": {"kind": "so", "src": ["math/unit_math.cpp"], "runner": "math_runner",
+             "aux": {"math_runner": {"src": "math/math_runner.cpp", "obj": False, "flags": ["-ffp-contract=off"], "libs": ["-ldl", "-lquadmath", "-lpthread"]}}},
     "c02": {"kind": "exe", "src": ["units/c02_fp_basic.cpp"], "aux": {"ref": {"src": "common/ref.cpp", "flags": ["-ffp-contract=off", "-fno-builtin"]}}, "link": ["ref"]},
 }
 ALL22 = "every architecture this CPU executes: 20 x86 (sse2 ... avx512vnni<avx512vbmi2>) + emulated<128>, emulated<256>"
@@ -348,5 +350,87 @@ PROPS = {
                 "distinct cell = (T, Align, request size class) / residue / (offset, size); run for the sse2, avx2 and avx512f builds (different default_arch / alignment)",
         "assumptions": ["power-of-two alignments >= sizeof(void*) (asserted by the library)", "held on the histories observed, not a proof"],
         "floor": {"quick": 10**5, "thorough": 10**6},
+    },
+    "C10": {
+        "technique": "runtime monitoring: per-architecture shared objects evaluate the float32 elementary functions on strided (quick) / exhaustive (thorough) sweeps of all 2^32 "
+                     "bit patterns in two lane layouts; oracle = double-precision libm reference with the frozen ulp bounds and graceful-saturation rules",
+        "level_text": "Every value returned by every float32 elementary function on every observed argument is compared with a double-precision reference: inside the claimed range "
+                      "the ulp error must not exceed the frozen bound, outside it the value must saturate gracefully (right sign, +-inf or >= MAX/16, or <= 16*MIN), never NaN. "
+                      "Quick: every 128th block of 4096 consecutive patterns (offset from the seed) in both layouts (neighbours / scrambled companions) on all 22 architectures, "
+                      "+-4096-pattern windows around every algorithm switch point, 2.6e5 structured pairs per binary function. Thorough: all 2^32 patterns in both layouts on the "
+                      "four codegen classes (sse2, fma3<avx2>, avx512f, emulated<128>), every 8th block on all 22, 3.4e7 pairs per binary function.",
+        "level_note": "Trusts glibc's double libm as reference (error < 1 double ulp = 2^-29 float ulp). Open known findings (lgamma below 2^-64, lgamma within 2^-8 of a negative "
+                      "integer, tgamma reflection underflow near -36) are excluded by named predicates, not by widening bounds. The thorough tier is exhaustive only on the four "
+                      "class architectures; the others are sampled 1/8.",
+        "design_ref": "DESIGN.md section 6 C10, section 8",
+        "jobs": [{"unit": "math", "timeout": {"quick": 1800, "thorough": 6 * 3600}}],
+        "rule": "each evaluation = one (function, argument, architecture, layout) result judged against the double reference; arguments: float32 bit patterns in blocks of 4096 "
+                "(layout 0: consecutive patterns share a batch; layout 1: patterns scrambled by an odd multiplier so lanes differ by dozens of binades), switch-point windows, "
+                "structured/random pairs for atan2/hypot/pow; distinct cell = (function, arch, layout, sign, binade of the argument); " + ALL22,
+        "assumptions": COMMON_ASSUME + ["argument finite and not subnormal; result class per DESIGN.md section 4", "pow(+-0, negative) is a pole: no claim"],
+        "floor": {"quick": 10**9, "thorough": 10**11},
+    },
+    "C11": {
+        "technique": "runtime monitoring: generated double arguments (log-uniform, uniform, binade boundaries, switch points, k*pi/2, widened floats, mixed companions) judged "
+                     "against a long double reference, disagreements re-checked in __float128",
+        "level_text": "Every value returned by every double elementary function on 5.2e5 (quick) / 3.4e7 (thorough) generated arguments per function per architecture is compared "
+                      "with a long double (64-bit mantissa) reference and, when the error exceeds 0.75 of the bound, with __float128 (libquadmath) before it is reported. Same "
+                      "bound / saturation rules as C10 with the double column of the frozen table. Doubles cannot be enumerated: exploration.",
+        "level_note": "Trusts glibc long double libm and libquadmath. The generators are derived from the thresholds of the current kernels plus threshold-independent streams.",
+        "design_ref": "DESIGN.md section 6 C11, section 8",
+        "jobs": [{"unit": "math", "timeout": {"quick": 1800, "thorough": 6 * 3600}}],
+        "rule": "each evaluation = one (function, argument, architecture) result judged against the long double / __float128 reference; nine argument streams per function, "
+                "either one stream per block (neighbouring magnitudes) or one stream per element (mixed-magnitude companions); distinct cell = (function, arch, layout, sign, "
+                "binade of the argument); " + ALL22,
+        "assumptions": COMMON_ASSUME + ["argument finite and not subnormal; result class per DESIGN.md section 4"],
+        "floor": {"quick": 10**8, "thorough": 10**10},
+    },
+    "C12": {
+        "technique": "runtime monitoring: table of special operands with expected result classes placed in every lane; bit-for-bit symmetry / identity relations evaluated on "
+                     "float32 sweeps and double samples (the monitor negates on the stored bits)",
+        "level_text": "(a) ~170 (function, special operand, expected class) rows -- NaN in, domain errors, poles and limits, the exact identities the property lists -- are evaluated "
+                      "with the special operand in every lane and three companion sets, float and double, all architectures. (b) odd/even symmetry, sincos == (sin, cos), "
+                      "fabs == abs, rint == nearbyint are compared bit for bit on every 128th (quick) / every (thorough, class architectures; 1/8 on the others) block of the 2^31 "
+                      "non-negative float32 patterns in two layouts and on 1.3e5 / 1e7 generated doubles.",
+        "level_note": "The special-value table is written from the property text and C99 Annex F, not from the code. Relations need no reference.",
+        "design_ref": "DESIGN.md section 6 C12",
+        "jobs": [{"unit": "math", "timeout": {"quick": 1800, "thorough": 6 * 3600}}],
+        "rule": "each evaluation = one special-operand placement (function, operand, lane, companion set) or one argument of one relation; distinct cell = (row, lane) / "
+                "(relation, arch, layout, binade); " + ALL22,
+        "assumptions": COMMON_ASSUME + ["any NaN equals any NaN", "sign of zero of log(1) not compared"],
+        "floor": {"quick": 10**8, "thorough": 10**10},
+    },
+    "C13": {
+        "technique": "runtime monitoring: f(v)[k] versus f(broadcast(v[k]))[0] for every lane k and branch-driving companion sets; bit identity for the exact operations, "
+                     "accuracy-bound + special-class agreement for the elementary functions",
+        "level_text": "For the exact operations of C01-C08 the integer, floating-point, rounding, bit and conversion units re-evaluate one lane per batch with its operands "
+                      "broadcast and require the bit-identical result (and identical lanes in the broadcast result). For the elementary functions the math runner evaluates "
+                      "batches of six companion classes (all small / one huge / one NaN or inf / mixed signs / straddling switch points / anything) and the broadcast of the lane "
+                      "under test: both must satisfy the function's bound, agree on NaN/inf class, and broadcast lanes must be identical; last-bit differences are counted.",
+        "level_note": "Companion sets are derived from the any()/all() thresholds of the current kernels plus unstructured ones.",
+        "design_ref": "DESIGN.md section 6 C13",
+        "jobs": [{"unit": "c01"}, {"unit": "c02"}, {"unit": "c06"}, {"unit": "c07"}, {"unit": "math", "timeout": {"quick": 1800, "thorough": 6 * 3600}}],
+        "rule": "each evaluation = one (op, lane k, companion set) comparison of the in-batch result with the broadcast result; distinct cell = (op, type, arch, lane, operand "
+                "classes) / (function, arch, companion class, lane); " + ALL22,
+        "assumptions": COMMON_ASSUME,
+        "floor": {"quick": 10**6, "thorough": 10**7},
+    },
+    "C14": {
+        "technique": "runtime monitoring through the XSIMD_VERIF_LOOP_TICK hook: iteration count of every data-dependent loop per call (one batch per call), bound 64 (float) / "
+                     "256 (double); CPU-time monitor per block for every function; watchdog",
+        "level_text": "tgamma and lgamma are called one batch at a time with the iteration counter reset; a call whose loops exceed 64 (float) / 256 (double) iterations is cut "
+                      "short by the hook and reported with its lanes. Arguments: every 512th (quick) / 16th (thorough) block of all float32 patterns in both layouts, and doubles "
+                      "from the generator streams, every binade, NaN/inf and mixed companions (one huge lane among small ones). For all functions the CPU time of every block of "
+                      "one magnitude class is recorded and a block 50x slower than its function's median is re-run alone three times before it is reported. A run that does not "
+                      "finish inside the watchdog is reported as a hang.",
+        "level_note": "Termination cannot be proved by running; iteration bounds are checked on the argument classes generated. Loops without the hook are covered by the timing "
+                      "monitor and the watchdog only.",
+        "design_ref": "DESIGN.md section 6 C14, section 11",
+        "jobs": [{"unit": "math", "timeout": {"quick": 1200, "thorough": 4 * 3600}}],
+        "rule": "each evaluation = one call (one batch) of tgamma/lgamma with its iteration count, or one timed block of 1024 arguments of one magnitude class; distinct cell = "
+                "(function, arch, layout, sign, binade); " + ALL22,
+        "assumptions": COMMON_ASSUME + ["legitimate maxima: ~170 iterations for double tgamma below its overflow threshold, ~33 for float"],
+        "floor": {"quick": 10**6, "thorough": 10**8},
+        "hang_is_violation": True,
     },
 }
